@@ -69,7 +69,11 @@ fn write_file(root: &Path, f: &Value) {
         std::os::unix::fs::symlink(t, &p).unwrap();
         return;
     }
-    std::fs::write(&p, content_of(f)).unwrap();
+    let mut data = content_of(f);
+    if f.get("subst").and_then(|x| x.as_bool()).unwrap_or(false) {
+        data = String::from_utf8_lossy(&data).replace("{root}", &root.display().to_string()).into_bytes();
+    }
+    std::fs::write(&p, data).unwrap();
     if let Some(m) = f.get("mode").and_then(|x| x.as_u64()) {
         use std::os::unix::fs::PermissionsExt;
         std::fs::set_permissions(&p, std::fs::Permissions::from_mode(m as u32)).unwrap();
@@ -142,7 +146,46 @@ fn mode_of(s: &str) -> Mode {
     }
 }
 
+/// run one library step in a child process (so that it can be crashed at a chosen hook event)
+fn run_isolated(root: &Path, r: &Value) -> Value {
+    let exe = std::env::current_exe().unwrap();
+    let mut r2 = r.clone();
+    r2.as_object_mut().unwrap().remove("isolate");
+    let spec = json!({"root": root.display().to_string(), "run": r2});
+    let out = std::process::Command::new(exe)
+        .arg("runstep")
+        .arg(serde_json::to_string(&spec).unwrap())
+        .env_remove("TXTPP_FILE")
+        .stdin(std::process::Stdio::null())
+        .output();
+    match out {
+        Err(e) => json!({"verdict": "toolerror", "detail": format!("{e}")}),
+        Ok(o) => {
+            use std::os::unix::process::ExitStatusExt;
+            if o.status.code() == Some(137) || o.status.signal() == Some(9) {
+                return json!({"verdict": "crashed"});
+            }
+            match serde_json::from_slice::<Value>(&o.stdout) {
+                Ok(v) => v,
+                Err(_) => json!({"verdict": "toolerror", "detail": format!("child exit {:?}: {}", o.status.code(), String::from_utf8_lossy(&o.stderr))}),
+            }
+        }
+    }
+}
+
+pub fn cmd_runstep(args: &[String]) -> i32 {
+    let spec: Value = serde_json::from_str(&args[0]).unwrap();
+    ctl::install_panic_hook();
+    let v = run_lib(Path::new(spec["root"].as_str().unwrap()), &spec["run"]);
+    println!("{}", serde_json::to_string(&v).unwrap());
+    std::io::stdout().flush().unwrap();
+    unsafe { libc::_exit(0) }
+}
+
 fn run_lib(root: &Path, r: &Value) -> Value {
+    if r.get("isolate").and_then(|x| x.as_bool()).unwrap_or(false) {
+        return run_isolated(root, r);
+    }
     let base = root.join(r.get("base").and_then(|x| x.as_str()).unwrap_or("."));
     let n = r.get("threads").and_then(|x| x.as_u64()).unwrap_or(2) as usize;
     let cfg = Config {
@@ -158,13 +201,8 @@ fn run_lib(root: &Path, r: &Value) -> Value {
     let log_pp = r.get("log_pp").and_then(|x| x.as_bool()).unwrap_or(false);
     let jitter = r.get("jitter").and_then(|x| x.as_u64());
     let want_events = r.get("events").and_then(|x| x.as_bool()).unwrap_or(false) || log_pp;
-    let out = if n == 0 {
-        // the pool cannot even be built with zero threads if the code does not guard it: run it
-        // plainly so that a panic is caught and reported as data
-        sched::run_free(cfg, 1, jitter, log_pp)
-    } else {
-        sched::run_free(cfg, n, jitter, log_pp)
-    };
+    let crash_at = r.get("crash_at").and_then(|x| x.as_u64()).map(|x| x as usize);
+    let out = sched::run_free_opts(cfg, n.max(1), jitter, log_pp, crash_at);
     let runs: Vec<Value> = out.events.iter().filter(|e| e["e"] == "run").cloned().collect();
     let mut v = json!({"verdict": out.verdict, "detail": out.detail, "runs": runs});
     if want_events {
@@ -220,6 +258,10 @@ fn run_cli(root: &Path, r: &Value, cli: &str) -> Value {
         let _ = std::io::Read::read_to_end(&mut se, &mut b);
         b
     });
+    if let Some(us) = r.get("kill_after_us").and_then(|x| x.as_u64()) {
+        std::thread::sleep(std::time::Duration::from_micros(us));
+        let _ = ch.kill();
+    }
     let status = loop {
         match ch.try_wait() {
             Ok(Some(s)) => break Some(s),
@@ -243,6 +285,9 @@ fn run_cli(root: &Path, r: &Value, cli: &str) -> Value {
         Some(s) => {
             use std::os::unix::process::ExitStatusExt;
             let code = s.code();
+            if s.signal() == Some(9) && r.get("kill_after_us").is_some() {
+                return json!({"verdict": "crashed"});
+            }
             let verdict = match code {
                 Some(0) => "ok",
                 Some(101) => "panic",
